@@ -223,7 +223,7 @@ def rule_digit_guard(ctx, cfg, prog, rule='R-GUARD/G6'):
                            '%s reads %s.wnaf[%s] without being on the true edge of `%s < %s.wnaf_size`: digits beyond the recoded '
                            'length are uninitialised' % (f['qn'], obj, idx, idx, obj), cfg=cfg,
                            sample=dict(config=cfg, function=f['qn'][:80], object=obj, index=idx))
-    ctx.floor('%s digit reads[%s]' % (rule, cfg), sites, 10)
+    ctx.floor('%s digit reads[%s]' % (rule, cfg), sites, 6)   # one read per recoded scalar at least (2 in G1, 4 in G2)
 
 
 def rule_carry(ctx, cfg, prog, rule='R-CARRY'):
